@@ -21,6 +21,7 @@ EXPLANATION = (
     "so no handler in GP/search/poll code can swallow a target failure. R4 checklist + siblings: the value test is a disjunction containing "
     "not-isscalar (first), not-isfinite, not-isreal; the SD test contains not-isscalar (first), not-isfinite, not-isreal and sd <= 0; with "
     "specified noise a non-(value, SD) pair raises ValueError; __call__ and add agree. R5 the value/SD recorded are the target's own outputs (unwrapping only, also through a validation helper). R6 a first-element extraction from the target's value needs a size-1 guard (or a value already known not to be an array). Decides the shape of the wrapper on all paths."
+    " The value / SD arguments of the record call are located by the roles of the record routine's parameters (read off its stores), not by position."
 )
 
 
